@@ -1367,3 +1367,30 @@ package analysis
 //@   loop 2: invariant forall n in dom(result) :: (exists i in 0..idx1 - 1 :: hasReq(requirements[i], n)) || (exists j in 0..idx :: reqs[j].Name == n)
 //@   loop 2: invariant forall i in 0..idx1 - 1 :: forall n string :: n != "" && hasReq(requirements[i], n) && n in dom(s.spec.SecurityDefinitions) && s.spec.SecurityDefinitions[n] != nil ==> n in dom(result)
 //@   loop 2: invariant forall j in 0..idx :: reqs[j].Name != "" && reqs[j].Name in dom(s.spec.SecurityDefinitions) && s.spec.SecurityDefinitions[reqs[j].Name] != nil ==> reqs[j].Name in dom(result)
+
+// ---- listings (C14)
+//@ fun idOrMP(o *spec.Operation, M string, p string) string = if o.ID != "" then o.ID else fmt.Sprintf("%s %s", strings.ToUpper(M), p)
+
+//@ func (s *Spec) OperationIDs()
+//@   requires s != nil && wfOps(s)
+//@   modifies nothing
+//@   ensures forall M string :: forall p string :: inOpsIdx(s, M, p) ==> inStrs(result, idOrMP(s.operations[M][p], M, p))
+//@   ensures forall i in 0..len(result) :: exists M in dom(s.operations) :: exists p in dom(s.operations[M]) :: result[i] == idOrMP(s.operations[M][p], M, p)
+//@   loop 1: invariant forall M in seen :: forall p in dom(s.operations[M]) :: inStrs(result, idOrMP(s.operations[M][p], M, p))
+//@   loop 1: invariant forall i in 0..len(result) :: exists M in dom(s.operations) :: exists p in dom(s.operations[M]) :: result[i] == idOrMP(s.operations[M][p], M, p)
+//@   loop 2: invariant forall M in seen1 :: M != key1 ==> forall p in dom(s.operations[M]) :: inStrs(result, idOrMP(s.operations[M][p], M, p))
+//@   loop 2: invariant forall p in seen :: inStrs(result, idOrMP(s.operations[key1][p], key1, p))
+//@   loop 2: invariant forall i in 0..len(result) :: exists M in dom(s.operations) :: exists p in dom(s.operations[M]) :: result[i] == idOrMP(s.operations[M][p], M, p)
+//@   loop 2: invariant key1 in dom(s.operations) && v == s.operations[key1] && method == key1
+
+//@ func (s *Spec) OperationMethodPaths()
+//@   requires s != nil && wfOps(s)
+//@   modifies nothing
+//@   ensures forall M string :: forall p string :: inOpsIdx(s, M, p) ==> inStrs(result, fmt.Sprintf("%s %s", strings.ToUpper(M), p))
+//@   ensures forall i in 0..len(result) :: exists M in dom(s.operations) :: exists p in dom(s.operations[M]) :: result[i] == fmt.Sprintf("%s %s", strings.ToUpper(M), p)
+//@   loop 1: invariant forall M in seen :: forall p in dom(s.operations[M]) :: inStrs(result, fmt.Sprintf("%s %s", strings.ToUpper(M), p))
+//@   loop 1: invariant forall i in 0..len(result) :: exists M in dom(s.operations) :: exists p in dom(s.operations[M]) :: result[i] == fmt.Sprintf("%s %s", strings.ToUpper(M), p)
+//@   loop 2: invariant forall M in seen1 :: M != key1 ==> forall p in dom(s.operations[M]) :: inStrs(result, fmt.Sprintf("%s %s", strings.ToUpper(M), p))
+//@   loop 2: invariant forall p in seen :: inStrs(result, fmt.Sprintf("%s %s", strings.ToUpper(key1), p))
+//@   loop 2: invariant forall i in 0..len(result) :: exists M in dom(s.operations) :: exists p in dom(s.operations[M]) :: result[i] == fmt.Sprintf("%s %s", strings.ToUpper(M), p)
+//@   loop 2: invariant key1 in dom(s.operations) && v == s.operations[key1] && method == key1
